@@ -307,7 +307,7 @@ class SymEx:
             bi, path = work.pop()
             while True:
                 n = path.visits.get(bi, 0)
-                if n > self.loop_visits:
+                if n > self.loop_visits + path.env.get('__unroll', 0):
                     path.end = ('loop', bi)
                     out.append(path)
                     break
@@ -459,6 +459,7 @@ def array_iter_model(nm, args, bi, path):
     `next()` on it is Some(element k), the one after the last is None (the loop is bounded by the array, like the counter of
     a hand-written loop)."""
     if re.search(r'IntoIterator for \[T; N\]>::into_iter$', nm) and args and args[0][0] == 'array':
+        path.env['__unroll'] = max(path.env.get('__unroll', 0), len(args[0][1]))
         return ('arrayiter', args[0][1], bi)
     # `for i in a..b` with constant bounds: the same, element k is a + k
     if re.search(r'IntoIterator>::into_iter$', nm) and args and args[0][0] == 'agg' and args[0][1] == 'std::ops::Range' \
@@ -466,6 +467,7 @@ def array_iter_model(nm, args, bi, path):
         lo, hi = args[0][3]['start'][1], args[0][3]['end'][1]
         ty = args[0][3]['start'][2] if len(args[0][3]['start']) > 2 else 'u32'
         if isinstance(lo, int) and isinstance(hi, int) and 0 <= hi - lo <= 16:
+            path.env['__unroll'] = max(path.env.get('__unroll', 0), hi - lo)
             return ('arrayiter', tuple(('const', x, ty) for x in range(lo, hi)), bi)
     if re.search(r'^<std::ops::Range<T> as std::iter::Iterator>::next$|^std::iter::range::<impl std::iter::Iterator for std::ops::Range<.*>>::next$', nm) and args:
         it = args[0]
